@@ -230,9 +230,142 @@ func Spec() *explore.Spec {
 	}
 	spec.Families = append(spec.Families, &explore.Family{Name: "length-ladder", ShardDepth: 2, Body: ladder,
 		Doc: "20 positions of a length-delimited payload (string, bytes, nested, pointer, repeated, map key/value, Message/custom leaf, element counts) x every payload length 0..300 and 16370..16400 (thorough: ..2100 and around 2^21): every length-prefix width boundary at every nesting position"})
+	spec.Families = append(spec.Families, &explore.Family{Name: "recursive-types", ShardDepth: 2, Serial: true, Body: recursiveTypes,
+		Doc: "recursive message types (through []*T, map[string]*T, *T inside []T, []T by value) reached through an outer type before / after the recursive type was used on its own, values 1-3 levels deep: Size, Marshal, Unmarshal, equality"})
 	spec.Families = append(spec.Families, &explore.Family{Name: "after-failed-decode", ShardDepth: 2, Body: afterFailedDecode,
 		Doc: "histories of length 2: a decode that fails (the encoding of a fully populated value truncated at every offset, or with one byte replaced by 0x07 / 0xff at every offset) followed by Unmarshal(Marshal(v)) of sparse values of the same type (maps of messages, of pointers to messages, of strings; repeated messages): pooled scratch state must not leak into the second decode"})
 	return spec
+}
+
+// ---- recursive message types, reached through a pointer / map / slice before the type itself was ever used
+
+type rTree1 struct {
+	V    int
+	Kids []*rTree1
+}
+type rOuter1 struct{ T *rTree1 }
+
+type rTree2 struct {
+	V    int
+	Kids []*rTree2
+}
+type rOuter2 struct{ T *rTree2 }
+
+type rTree3 struct {
+	V    int32
+	Kids map[string]*rTree3
+}
+type rOuter3 struct{ M map[string]*rTree3 }
+
+type rList4 struct {
+	V    int64
+	Next *rList4
+	Tags []string
+}
+type rOuter4 struct {
+	Name string
+	L    []rList4
+}
+
+type rTree5 struct {
+	V    int
+	Kids []rTree5
+}
+type rOuter5 struct{ P **rTree5 }
+
+func recursiveTypes(c *explore.Ctx) {
+	scenario := c.Choose(6)
+	depth := 1 + c.Choose(3)
+	var v, fresh any
+	name := ""
+	switch scenario {
+	case 0: // the outer type first: the recursive type has never been used on its own
+		name = "Outer{T *Tree}; Tree{V int; Kids []*Tree}, outer type first"
+		var mk func(d int) *rTree1
+		mk = func(d int) *rTree1 {
+			t := &rTree1{V: d}
+			if d > 0 {
+				t.Kids = []*rTree1{mk(d - 1), mk(d - 1)}
+			}
+			return t
+		}
+		v, fresh = &rOuter1{T: mk(depth)}, new(rOuter1)
+	case 1: // the recursive type first, then the outer one
+		name = "Tree first, then Outer{T *Tree}"
+		var mk func(d int) *rTree2
+		mk = func(d int) *rTree2 {
+			t := &rTree2{V: d}
+			if d > 0 {
+				t.Kids = []*rTree2{mk(d - 1)}
+			}
+			return t
+		}
+		proto.Marshal(mk(1))
+		v, fresh = &rOuter2{T: mk(depth)}, new(rOuter2)
+	case 2:
+		name = "Outer{M map[string]*Tree}; Tree{V int32; Kids map[string]*Tree}"
+		var mk func(d int) *rTree3
+		mk = func(d int) *rTree3 {
+			t := &rTree3{V: int32(d)}
+			if d > 0 {
+				t.Kids = map[string]*rTree3{"a": mk(d - 1), "b": mk(d - 1)}
+			}
+			return t
+		}
+		v, fresh = &rOuter3{M: map[string]*rTree3{"root": mk(depth)}}, new(rOuter3)
+	case 3:
+		name = "Outer{Name string; L []List}; List{V int64; Next *List; Tags []string}"
+		var mk func(d int) *rList4
+		mk = func(d int) *rList4 {
+			l := &rList4{V: int64(d), Tags: []string{"t"}}
+			if d > 0 {
+				l.Next = mk(d - 1)
+			}
+			return l
+		}
+		v, fresh = &rOuter4{Name: "n", L: []rList4{*mk(depth), *mk(0)}}, new(rOuter4)
+	case 4:
+		name = "Tree{V int; Kids []Tree} by value"
+		var mk func(d int) rTree5
+		mk = func(d int) rTree5 {
+			t := rTree5{V: d + 1}
+			if d > 0 {
+				t.Kids = []rTree5{mk(d - 1), mk(d - 1)}
+			}
+			return t
+		}
+		t := mk(depth)
+		v, fresh = &t, new(rTree5)
+	case 5:
+		name = "the same outer type again (codec cached)"
+		v, fresh = &rOuter1{T: &rTree1{V: 9, Kids: []*rTree1{{V: 8}}}}, new(rOuter1)
+	}
+	var b []byte
+	var merr, uerr error
+	size := -1
+	if pv, ps := explore.Catch(func() {
+		size = proto.Size(v)
+		b, merr = proto.Marshal(v)
+		if merr == nil {
+			uerr = proto.Unmarshal(b, fresh)
+		}
+	}); pv != nil {
+		c.Fail("recursive:panic:"+ps+":"+explore.PanicClass(pv), "%s (depth %d) panics: %v", name, depth, pv)
+		return
+	}
+	switch {
+	case merr != nil:
+		c.Fail("recursive:Marshal-error", "Marshal fails for %s (depth %d): %v", name, depth, merr)
+	case size != len(b):
+		c.Fail("recursive:Size", "Size %d, len(Marshal) %d for %s (depth %d)", size, len(b), name, depth)
+	case uerr != nil:
+		c.Fail("recursive:Unmarshal-error", "Unmarshal(Marshal(v)) fails for %s (depth %d): %v (bytes % x)", name, depth, uerr, b)
+	case !reflect.DeepEqual(normalize(reflect.ValueOf(fresh)).Interface(), normalize(reflect.ValueOf(v)).Interface()):
+		c.Fail("recursive:value-differs", "Unmarshal(Marshal(v)) != v for %s (depth %d) (bytes % x)", name, depth, b)
+	}
+	c.NontrivialStr("recursive", name, fmt.Sprint(depth))
+	c.Outcome(fmt.Sprintf("scenario=%d", scenario))
+	c.Case(map[string]any{"types": name, "depth": depth, "encoded_bytes": len(b)})
 }
 
 // ---- histories: a failed decode must not influence the next one (pooled scratch structs of map codecs)
